@@ -35,11 +35,11 @@ pub fn gen_tc(r: &mut Rng, density: u64) -> TestCaseConfig {
     let set = |r: &mut Rng| r.chance(density, 10);
     if set(r) { c.output_stream = Some(match r.below(3) { 0 => OutputStreamControl::Stdout, 1 => OutputStreamControl::Stderr, _ => OutputStreamControl::Combined }); }
     if set(r) { c.keep_crlf = Some(r.chance(1, 2)); }
-    if set(r) { c.timeout = Some(Duration::from_millis(1000 * (1 + r.below(3)))); }
+    if set(r) { c.timeout = Some(Duration::from_millis(1000 * r.below(4))); }   // 0 is a value like any other (0 = unlimited for total_timeout)
     if set(r) { c.detached = Some(r.chance(1, 2)); }
-    if set(r) { c.skip_document_code = Some(1 + r.below(3) as i32); }
+    if set(r) { c.skip_document_code = Some(r.below(4) as i32); }
     if set(r) { c.strip_ansi_escaping = Some(r.chance(1, 2)); }
-    if set(r) { c.wait = Some(TestCaseWait { timeout: Duration::from_secs(1 + r.below(3)), path: None }); }
+    if set(r) { c.wait = Some(TestCaseWait { timeout: Duration::from_secs(r.below(4)), path: None }); }
     let n = if set(r) { r.range(1, 3) } else { 0 };
     for _ in 0..n { c.environment.insert(format!("K{}", r.below(4)), format!("V{}", r.below(3))); }
     c
@@ -49,7 +49,7 @@ pub fn gen_doc(r: &mut Rng) -> DocumentConfig {
     for _ in 0..r.below(3) { d.append.push(PathBuf::from(format!("p{}", r.below(5)))); }
     for _ in 0..r.below(3) { d.prepend.push(PathBuf::from(format!("p{}", r.below(5)))); }
     if r.chance(1, 2) { d.shell = Some(PathBuf::from(format!("s{}", r.below(3)))); }
-    if r.chance(1, 2) { d.total_timeout = Some(Duration::from_millis(1000 * (1 + r.below(3)))); }
+    if r.chance(1, 2) { d.total_timeout = Some(Duration::from_millis(1000 * r.below(4))); }
     d.defaults = gen_tc(r, 4);
     d
 }
@@ -77,22 +77,22 @@ pub fn main(args: &[String], w: &mut dyn Write) {
     let mut r = Rng::new(seed.wrapping_add(shard * 104729));
     let mk = Arc::new(ExpectationMaker::new(RuleRegistry::default()));
     if shard == 0 {
-        // exhaustive: every assignment of {unset, A, B} to one key (or one variable) in each of the four layers
+        // exhaustive: every assignment of {unset, zero/first, A, B} to one key (or one variable) in each of the four layers
         for key in 0..8u64 {
-            for code in 0..81u64 {
+            for code in 0..256u64 {
                 let mut layers = vec![];
                 for l in 0..4 {
-                    let v = (code / 3u64.pow(l)) % 3;
+                    let v = (code / 4u64.pow(l)) % 4;
                     let mut c = TestCaseConfig::empty();
                     if v > 0 {
                         match key {
-                            0 => c.output_stream = Some(if v == 1 { OutputStreamControl::Stdout } else { OutputStreamControl::Combined }),
+                            0 => c.output_stream = Some(if v == 1 { OutputStreamControl::Stdout } else if v == 2 { OutputStreamControl::Stderr } else { OutputStreamControl::Combined }),
                             1 => c.keep_crlf = Some(v == 1),
-                            2 => c.timeout = Some(Duration::from_millis(1000 * v)),
+                            2 => c.timeout = Some(Duration::from_millis(1000 * (v - 1))),
                             3 => c.detached = Some(v == 1),
-                            4 => c.skip_document_code = Some(v as i32),
+                            4 => c.skip_document_code = Some(v as i32 - 1),
                             5 => c.strip_ansi_escaping = Some(v == 1),
-                            6 => c.wait = Some(TestCaseWait { timeout: Duration::from_secs(v), path: None }),
+                            6 => c.wait = Some(TestCaseWait { timeout: Duration::from_secs(v - 1), path: None }),
                             _ => { c.environment.insert("K1".into(), format!("V{}", v)); }
                         }
                     }
